@@ -59,7 +59,38 @@ def _c06(tier, seed):
     return ps + families.canaries_debug(ps)
 
 
+def _c20(tier, seed):
+    ps = families.c20(tier, seed)
+    return ps + families.canaries_c20(ps)
+
+
+def _c17(prop, tier, seed, args):
+    from . import c17
+    return c17.run(prop, tier, seed, args)
+
+
 PROPS = {
+    "C17": {
+        "custom": _c17, "engine": "kani+verus",
+        "technique": "Kani (bounded string length) on the mechanically extracted diagnostic string builders; Verus (unbounded) on the extracted discriminant-type selection arithmetic",
+        "level_text": "narrow: panic-freedom of the pure helper fragments that can be cut out of the generator; the string builders are a BOUNDED check (ASCII tail <= 14 bytes), the selection arithmetic is proved",
+        "trusted": ["rustc's proc-macro printer renders the attribute meta as `Name` / `Name(...)` with no space before `(` (measured through the real macro)"],
+        "assumptions": ["narrow: parsing, `unwrap()` on get_ident(), `parse2(..).unwrap()`, recursion depth and termination of everything driven by syn are NOT decided",
+                        "call-site precondition: for Hash/PartialEq on a union every parameter other than `unsafe` is rejected before the builder runs, so s is `Name` or `Name()`",
+                        "non-ASCII text can only occur inside the parenthesised tail, beyond every index the builders touch"],
+        "explanation": "union_without_unsafe string surgery cannot panic under the call-site precondition (bounded); discriminant width selection fits and is minimal, min/max/counter step cannot overflow (proved)",
+    },
+    "C20": {
+        "family": _c20, "verus": False, "engine": "kani",
+        "technique": "Kani/CBMC full-domain harnesses on the real union derives (byte views, pointer checks); loops only over the fixed object size with unwinding assertions",
+        "bounds": {"quick": "9 padding-free unions (sizes 1-16, 1-3 fields, one generic at T=u32) x 4 trait sets {PartialEq, Hash, Clone+Copy, all}; Default on unions: 1-3 fields x marker x with/without expression",
+                   "thorough": "5 trait sets"},
+        "trusted": ["CBMC memory model for raw byte views"],
+        "assumptions": ["partial: Debug on unions (core::fmt) and 'generated only behind unsafe' (a rejection, cf. C13) are NOT decided",
+                        "unions with padding are outside the family (their padding bytes are uninitialised)",
+                        "harness loops (memcmp / byte copy) run over the fixed object size with unwinding assertions on"],
+        "explanation": "union ==/hash/clone are byte-exact over size_of::<Self>() bytes, for all byte patterns; default() initialises the designated field",
+    },
     "C06": {
         "family": _c06, "kani": False, "engine": "verus",
         "bounds": {"quick": "structs named/tuple/unit n<=3 x type name {default, custom, disabled} x named_field {default, flipped} x up to 6 field assignments over {plain, ignore, renamed key}; enums: 10 variant-kind combinations x enum name {off, on, renamed} x 3 variant-name rotations {default, disabled, custom} with named_field flips; every spelling of each parameter in rotation",
